@@ -14,6 +14,7 @@ package auto
 //@   requires tbl(t) && !lockHeld
 //@   assigns new(csv.CSVTable), new(html.HTMLTable), new(markdown.MarkdownTable), new(json.JSONTable), new(texttable.TextTable), heap[tabular.callbackSet.renderTime], heap[tabular.callbackSet.addTime], heap[tabular.callbackSet.preCellRenderTime], heap[tabular.callbackSet.postCellRenderTime], heap[[]tabular.PropertyCallback], ghost lockHeld
 //@   ensures [lock-released] !lockHeld
+//@   ensures [table-still-wellformed] tbl(t) @C10
 //@   ensures [one-of-the-five-wrappers-around-t] (dyn(result) == type[*csv.CSVTable] && result.(*csv.CSVTable) != nil && result.(*csv.CSVTable).Table === t) || (dyn(result) == type[*html.HTMLTable] && result.(*html.HTMLTable) != nil && result.(*html.HTMLTable).Table === t) || (dyn(result) == type[*markdown.MarkdownTable] && result.(*markdown.MarkdownTable) != nil && result.(*markdown.MarkdownTable).Table === t) || (dyn(result) == type[*json.JSONTable] && result.(*json.JSONTable) != nil && result.(*json.JSONTable).Table === t) || (dyn(result) == type[*texttable.TextTable] && result.(*texttable.TextTable) != nil && result.(*texttable.TextTable).Table === t) @C10
 //@   ensures [csv-any-case-trailing-sections-ignored] lower(first(style)) == "csv" ==> dyn(result) == type[*csv.CSVTable] && result.(*csv.CSVTable).Table === t @C19
 //@   ensures [html-any-case-trailing-sections-ignored] lower(first(style)) == "html" ==> dyn(result) == type[*html.HTMLTable] && result.(*html.HTMLTable).Table === t @C19
@@ -55,12 +56,10 @@ package auto
 //@ func Render
 //@   tags C09,C10,C19
 //@   requires tbl(t) && t.(*tabular.ATable).nColumns <= 1048576 && !lockHeld
-//@   call Wrap after assume tbl(t)
 //@   ensures [error-means-no-text] result1 != nil ==> result0 == "" @C09
 
 //@ func RenderTo
 //@   tags C09,C10,C15,C19
 //@   requires w != nil && tbl(t) && t.(*tabular.ATable).nColumns <= 1048576 && !lockHeld && jstate == 0
-//@   call Wrap after assume tbl(t)
 //@   requires [writer-ok] !Wfailed
 //@   ensures [failing-writer-surfaces] Wfailed ==> result != nil @C15
